@@ -1047,7 +1047,7 @@ DO_FOCUS = {
     # every variant option, pairs on the first variant and one on the second, with and without container from_word
     "enum": dict(derives="EnumDerives", shapes="EnumShapes", citems="ContainerSmall", fitems="FieldAlphaSmall", vitems="VariantAlpha", mc=1, mf1=0, mf2=0, mv1=2, mv2=2),
     # options on the field of a struct variant (live, skipped, `skip = false`): all singles and ordered pairs
-    "vfield": dict(derives="EnumDerives", shapes="EnumShapes", citems="ContainerSmall", fitems="FieldAlpha", vitems="VFieldVariant", mc=0, mf1=2, mf2=0, mv1=1, mv2=0),
+    "vfield": dict(derives="EnumDerives", shapes="EnumShapes", citems="ContainerSmall", fitems="FieldAlpha", vitems="VFieldVariant", mc=0, mf1=1, mf2=1, mv1=1, mv2=1),
     # every field option in every form: all singles, ordered pairs and ordered triples on one field, one more on a second field
     "field": dict(derives="FieldDerives", shapes="FieldShapes", citems="ContainerSmall", fitems="FieldAlpha", vitems="VariantAlpha", mc=0, mf1=3, mf2=1, mv1=0, mv2=0),
 }
